@@ -82,6 +82,7 @@ type Ctx struct {
 	declared    map[string]string // symbol -> sort
 	facts       map[string]bool   // dedupe ground facts
 	inputs      []string
+	sliceInputs []string        // byte-slice parameters whose leading bytes are requested in models
 	notes       map[string]bool // abstraction notes
 	kindCnt     map[string]int
 	weak        map[int]bool    // items that are only included in the second solving attempt (expensive facts)
@@ -219,7 +220,15 @@ func (c *Ctx) scriptW(o *Obligation, withWeak bool) string {
 	}
 	b.WriteString("(assert (not " + o.goal + "))\n(check-sat)\n")
 	if len(o.inputs) > 0 {
-		b.WriteString("(get-value (" + strings.Join(o.inputs, " ") + "))\n")
+		ins := append([]string{}, o.inputs...)
+		if _, ok := c.declared[sym("M@0")]; ok {
+			for _, sl := range c.sliceInputs {
+				for k := 0; k < 32; k++ {
+					ins = append(ins, fmt.Sprintf("(select (select M@0 (s-reg %s)) (+ (s-off %s) %d))", sl, sl, k))
+				}
+			}
+		}
+		b.WriteString("(get-value (" + strings.Join(ins, " ") + "))\n")
 	}
 	return b.String()
 }
@@ -628,61 +637,81 @@ func solveOne(c *Ctx, o *Obligation, dir string, timeout int, stats *solveStats)
 	}
 }
 
-// parseModel parses "(get-value ...)" output: ((name value) ...)
+// parseModel parses "(get-value ...)" output: ((expr value) ...), where expr may itself be an s-expression
 func parseModel(raw string) map[string]string {
 	m := map[string]string{}
 	i := strings.Index(raw, "((")
 	if i < 0 {
 		return m
 	}
-	s := raw[i:]
-	// tokenise s-expression pairs at depth 1
-	depth := 0
-	start := -1
-	for j := 0; j < len(s); j++ {
-		switch s[j] {
-		case '|':
-			k := strings.IndexByte(s[j+1:], '|')
-			if k < 0 {
-				return m
-			}
-			j += k + 1
+	s := raw[i+1:] // inside the outer list
+	pos := 0
+	skipWS := func() {
+		for pos < len(s) && (s[pos] == ' ' || s[pos] == '\n' || s[pos] == '\t' || s[pos] == '\r') {
+			pos++
+		}
+	}
+	readSexp := func() string {
+		skipWS()
+		start := pos
+		if pos >= len(s) {
+			return ""
+		}
+		switch s[pos] {
 		case '(':
-			depth++
-			if depth == 2 {
-				start = j
-			}
-		case ')':
-			if depth == 2 && start >= 0 {
-				pair := s[start+1 : j]
-				sp := splitFirst(pair)
-				if sp[0] != "" {
-					m[sp[0]] = strings.TrimSpace(sp[1])
+			depth := 0
+			for pos < len(s) {
+				switch s[pos] {
+				case '|':
+					k := strings.IndexByte(s[pos+1:], '|')
+					if k < 0 {
+						pos = len(s)
+						return s[start:]
+					}
+					pos += k + 1
+				case '(':
+					depth++
+				case ')':
+					depth--
+					if depth == 0 {
+						pos++
+						return s[start:pos]
+					}
 				}
-				start = -1
+				pos++
 			}
-			depth--
-			if depth == 0 {
-				return m
+			return s[start:]
+		case '|':
+			k := strings.IndexByte(s[pos+1:], '|')
+			if k < 0 {
+				pos = len(s)
+				return s[start:]
 			}
+			pos += k + 2
+			return s[start:pos]
 		}
-	}
-	return m
-}
-
-func splitFirst(p string) [2]string {
-	p = strings.TrimSpace(p)
-	if strings.HasPrefix(p, "|") {
-		k := strings.IndexByte(p[1:], '|')
-		if k >= 0 {
-			return [2]string{p[:k+2], p[k+2:]}
+		for pos < len(s) && s[pos] != ' ' && s[pos] != ')' && s[pos] != '\n' {
+			pos++
 		}
+		return s[start:pos]
 	}
-	k := strings.IndexAny(p, " \n\t")
-	if k < 0 {
-		return [2]string{p, ""}
+	for {
+		skipWS()
+		if pos >= len(s) || s[pos] != '(' {
+			return m
+		}
+		pos++ // open pair
+		key := readSexp()
+		val := readSexp()
+		skipWS()
+		if pos < len(s) && s[pos] == ')' {
+			pos++
+		}
+		if key == "" {
+			return m
+		}
+		m[key] = strings.Join(strings.Fields(val), " ")
 	}
-	return [2]string{p[:k], p[k:]}
 }
 
 func sortedKeys(m map[string]bool) []string {
